@@ -11,7 +11,7 @@ thorough: builds the fuzz-instrumented test binary once and runs the five
           under /verif/.run/violations/ and reported as EXTRA-VIOLATION. Running
           out of time is "inconclusive", never a violation.
 """
-import argparse, glob, hashlib, os, re, shutil, subprocess, sys, time
+import argparse, base64, glob, hashlib, json, os, re, shutil, subprocess, sys, time
 
 TARGETS = ["FuzzJSONUnmarshal", "FuzzJSONType", "FuzzJSONImpliedType", "FuzzMsgpackUnmarshal", "FuzzMsgpackImpliedType"]
 FUZZ_SECONDS = int(os.environ.get("VERIF_C17_FUZZ_SECONDS", "55"))
@@ -48,15 +48,40 @@ def main():
             return 2
         txt = r.stdout + r.stderr
         nseeds = len(re.findall(r"^\s*--- PASS: Fuzz\w+/seed#\d+", txt, re.M))
-        fails = re.findall(r"^\s*--- FAIL: (Fuzz\w+)/(seed#\d+)[^\n]*\n((?:\s+[^\n]*\n)*)", txt, re.M)
+        fails = []
+        for block in re.split(r"^=== RUN\s+", txt, flags=re.M):
+            m = re.match(r"(Fuzz\w+)/seed#(\d+)\s*\n", block)
+            v = re.search(r"C17 violation: ([^\n]*)", block)
+            if m and v:
+                fails.append((m.group(1), int(m.group(2)), v.group(1)))
         out("EXTRA-EVAL %d 0" % nseeds)
-        out("EXTRA-NOTE seed-corpus pass of the 5 native fuzz targets: %d seeds, %d failing, %.1fs" % (nseeds, len(fails), time.time() - t0))
-        for tgt, seedname, detail in fails:
+        out("EXTRA-NOTE seed-corpus pass of the 5 native fuzz targets: %d seeds, %d failing, %.1fs" % (nseeds + len(fails), len(fails), time.time() - t0))
+        corpus_of = {"FuzzJSONUnmarshal": "json-value", "FuzzJSONType": "json-type", "FuzzJSONImpliedType": "json-implied",
+                     "FuzzMsgpackUnmarshal": "msgpack-value", "FuzzMsgpackImpliedType": "msgpack-implied"}
+        reported = {}
+        for tgt, idx, why in fails:
+            reported[tgt] = reported.get(tgt, 0) + 1
+            if reported[tgt] > 3:
+                continue  # the first few per target are enough
             os.makedirs(viol_dir, exist_ok=True)
-            p = os.path.join(viol_dir, "C17-seed-%s-%s-%d.txt" % (tgt, seedname.replace("#", ""), int(time.time())))
-            with open(p, "w") as fh:
-                fh.write("%s %s\n%s" % (tgt, seedname, detail))
-            out("EXTRA-VIOLATION %s :: corpus seed %s of %s violates the oracle: %s" % (p, seedname, tgt, " ".join(detail.split())[:300]))
+            dst = os.path.join(viol_dir, "C17-seed-%s-%d-%d.json" % (tgt, idx, int(time.time())))
+            try:
+                seeds = json.load(open(os.path.join(root, "corpus", corpus_of[tgt] + ".json")))
+                sd = seeds[idx] if idx < len(seeds) else {"sel": 0, "b64": ""}
+                data = base64.b64decode(sd["b64"])
+                gofuzz = os.path.join(wd, "seed-%s-%d" % (tgt, idx))
+                with open(gofuzz, "w") as fh:
+                    fh.write('go test fuzz v1\n[]byte("%s")\nbyte(%d)\n' % ("".join("\\x%02x" % b for b in data), sd["sel"] % 256))
+                cr = subprocess.run([a.bin], cwd=wd, env=dict(env, VERIF_C17_CONVERT=gofuzz, VERIF_C17_TARGET=tgt), capture_output=True, text=True, timeout=120)
+                if cr.returncode != 0 or not cr.stdout.strip():
+                    raise RuntimeError(cr.stderr[-200:])
+                with open(dst, "w") as fh:
+                    fh.write(cr.stdout)
+            except Exception as ex:  # keep the report even if the conversion fails
+                dst = dst[:-5] + ".txt"
+                with open(dst, "w") as fh:
+                    fh.write("%s seed#%d\n%s\n(conversion failed: %s)\n" % (tgt, idx, why, ex))
+            out("EXTRA-VIOLATION %s :: corpus seed #%d of %s violates the oracle: %s" % (dst, idx, tgt, why[:400]))
         if r.returncode != 0 and not fails:
             out("EXTRA-INFRA seed-corpus pass exited %d: %s" % (r.returncode, " ".join(txt.split())[-400:]))
             return 2
